@@ -19,7 +19,7 @@ REG = {
         "theorems": thms("C02", ["C02_order_indep", "C02_mutex_generic_pandas", "dtype_partition", "contains_dtypePred",
                                  "C02_mutex_object_pandas", "C02_mutex_string_pandas", "C02_witness_F10"])
                     + ["V.Pd.pandas_WF", "V.Pd.outputs_good", "V.Pd.goodB_sound", "V.PandasProps.C02_pandas"],
-        "runners": ["pandas"],
+        "runners": ["pandas", "numpy"],
         "relevant": ["contains", "guard", "infer-path", "infer-outcome", "detect-path", "relation-missing"],
     },
     "C03": {
@@ -36,14 +36,14 @@ REG = {
     "C15": {
         "modules": ["VProofs.Props.C15"],
         "theorems": thms("C15", ["C15_detect", "C15_infer"]),
-        "runners": ["pandas"],
+        "runners": ["pandas", "list"],
         "relevant": ["contains", "guard", "infer-path", "infer-outcome", "detect-path", "relation-missing"],
     },
     "C16": {
         "modules": ["VProofs.Props.C16", "VProofs.Props.Pandas"],
         "theorems": thms("C16", ["C16_chain", "C16_nested_pandas", "C16_witness_F26", "C16_witness_F27", "on_path_of_contains"])
                     + ["V.Pd.pandas_WF", "V.Pd.outputs_good", "V.Pd.goodB_sound", "V.PandasProps.C16_pandas"],
-        "runners": ["pandas"],
+        "runners": ["pandas", "numpy"],
         "relevant": ["contains", "detect-path"],
     },
     "C05": {
@@ -85,7 +85,7 @@ REG = {
         "modules": ["VProofs.Props.C10"],
         "theorems": thms("C10", ["C10_frame", "C10_history", "stringIsGeometry_restores", "suppressWarnings_id",
                                  "C10_witness_F01"]),
-        "runners": ["history", "engine"],
+        "runners": ["history", "engine", "list"],
         "partial": "the model cannot exhibit global state it does not name, nor hash-seed / process dependence: observed by the History runner",
     },
     "C11": {
